@@ -38,6 +38,11 @@ def get_inherited(t: Type) -> Type:
 
     r = base_classes[0]  # type: ignore
 
+    # `Generic[T]` only declares the type variables - there is no type to inherit from it
+    # (and it can't be re-parameterized with actual types).
+    if r is typing.Generic or get_origin(r) is typing.Generic:
+        return Any  # type: ignore
+
     g_args = get_args(t)
     if len(g_args) > 0:
         mapping = {a.__name__: v for a, v in zip(r.__parameters__, g_args)}
